@@ -152,14 +152,18 @@ ParseFieldsFrom(fs, i, ns, st, acc) ==
                     ELSE IF dv = "unspec" THEN Err("other")
                     ELSE ParseFieldsFrom(fs, i + 1, ns, r.st, Append(acc, fld))
 
-Define(st, full, kind) == [seen |-> st.seen \cup {full}, kindOf |-> (full :> kind) @@ st.kindOf, names |-> st.names]
+Define(st, full, kind) == [st EXCEPT !.seen = @ \cup {full}, !.kindOf = (full :> kind) @@ @]
 Bind(st, full, node) == [st EXCEPT !.names = (full :> node) @@ @]
 
 ParseType(x, ns, st) ==
   IF JIsStr(x) THEN
      IF x.cp \in PrimNames THEN Ok([k |-> PrimKind(x.cp), lt |-> NoLt], st)
      ELSE LET full == Qualify(x.cp, ns) IN
-          IF full \in DOMAIN st.kindOf THEN Ok([k |-> "ref", name |-> full], st) ELSE Err("undefined")
+          IF full \in DOMAIN st.kindOf THEN Ok([k |-> "ref", name |-> full], st)
+          \* a schema repository (C19): an undefined name that names a file is defined right here, at its first use,
+          \* by that file's schema (a file is a schema of its own: no enclosing namespace)
+          ELSE IF "repo" \in DOMAIN st /\ full \in DOMAIN st.repo THEN ParseType(st.repo[full], <<>>, st)
+          ELSE [ok |-> FALSE, kind |-> "undefined", name |-> full]
   ELSE IF JIsArr(x) THEN
      LET r == ParseSeqFrom(x.it, 1, ns, st, <<>>) IN
      IF r.ok THEN Ok([k |-> "union", br |-> r.ts], r.st) ELSE r
@@ -215,6 +219,8 @@ ParseType(x, ns, st) ==
     ELSE Err("other")
 
 Parse(raw) == ParseType(raw, <<>>, St0)
+\* parsing with a repository of per-type schemas: name -> raw schema
+ParseRepo(raw, repo) == ParseType(raw, <<>>, [seen |-> {}, kindOf |-> EmptyFn, names |-> EmptyFn, repo |-> repo])
 ParseWith(raw, names0) == ParseType(raw, <<>>, StFrom(names0))
 
 \* ---- helpers over parsed trees --------------------------------------------------
